@@ -1,4 +1,4 @@
-#!/usr/bin/env python3
+#!/usr/bin/python3
 """Regenerates /verif/MANIFEST.json from vlib/props.py and the texts below (run after changing the claimed set)."""
 import json
 import os
